@@ -140,6 +140,13 @@ def _float_width_range(fmt: str):
         if field is None:
             continue
         m = re.fullmatch(r"(?:(.)?([<>=^]))?([+\- ])?(#)?(0)?(\d+)?([,_])?(?:\.(\d+))?([a-zA-Z%])?", spec or "")
+        if m and m.group(9) in (None, "d") and m.group(8) is None:
+            # an integer field: the records hold 32-bit integers (struct 'i'): up to 10 digits, plus a sign
+            sign, w = m.group(3), int(m.group(6) or 0)
+            s_ = 1 if sign in ("+", " ") else 0
+            lo += max(s_ + 1, w)
+            hi += max(1 + 10, w)
+            continue
         if not m or m.group(9) not in ("E", "e") or m.group(8) is None:
             raise AnalysisError(f"float format spec `{spec}` outside the analysed fragment (only [sign][width].precE)")
         sign, w, prec = m.group(3), int(m.group(6) or 0), int(m.group(8))
@@ -276,6 +283,25 @@ def r1_primitive_symmetry(idx, r):
         raise AnchorMissing("IORecord.rwBool")
     uses_int = any(call_attr(c) == "rwInt" for c in iter_calls(fb.node))
     r.require(uses_int, "binary:rwBool:via-rwInt", fb, msg="rwBool must encode through rwInt on both sides")
+    # the flag written is the TRUTH of the value: numpy booleans (flags computed from arrays) are not `bool` instances and
+    # must not be written as 0. Evaluated over a small domain with the writer's rwInt modelled as the identity.
+    from ..minieval import MiniEval, Raised
+
+    class _W(MiniEval):
+        def _ev(self, e, env):
+            if isinstance(e, ast.Call) and dotted(e.func) == "self.rwInt" and len(e.args) == 1:
+                return self._ev(e.args[0], env)
+            return super()._ev(e, env)
+    pv = [q for q in fb.params() if q != "self"][0]
+    wrong = []
+    for label, v, want in (("True", True, True), ("False", False, False), ("a truthy non-bool (numpy.bool_(True), 1)", 1, True), ("a falsy non-bool (numpy.bool_(False), 0)", 0, False)):
+        try:
+            got, _ = _W().run(fb.node, {pv: v})
+        except Raised:
+            got = "raise"
+        if got != want and got != "raise":
+            wrong.append(f"{label} is written as {got!r}")
+    r.require(not wrong, "binary:rwBool:truth-of-any-value", fb, msg="; ".join(wrong) + ": a header flag set from numpy data is stored as 0 and the optional record it announces is silently dropped")
     for c in (rd, wr):
         f = c.resolve("rwBool")
         ok = f is fb or any(dotted(x.func) == "IORecord.rwBool" for x in iter_calls(f.node))
@@ -321,6 +347,13 @@ def r1_primitive_symmetry(idx, r):
         r.require(rng == (rl[0], rl[0]), f"ascii:{meth}:width-for-every-float", fw,
                   msg=f"the writer renders a float into between {rng[0]} and {rng[1]} characters (three-digit exponents such as 1e-100 take one more, "
                       f"inf/nan fewer) but the reader always consumes {rl[0]}: every later field of the record is misread")
+    # the same for integers: a 32-bit integer has up to ten digits and a sign
+    fr, rl = reader_len("rwInt")
+    fw = awr.resolve("rwInt")
+    rng = _ascii_float_text_range(idx, awr, fw)
+    r.require(rng == (rl[0], rl[0]), "ascii:rwInt:width-for-every-int32", fw,
+              msg=f"the writer renders an integer into between {rng[0]} and {rng[1]} characters (ten-digit values such as 1000000000 with their sign exceed the field) "
+                  f"but the reader always consumes {rl[0]}: every later field of the record is misread")
     # byte accounting: stream code computes 'what is left in this record' from numBytes - byteCount
     users = []
     for m in _cccc_modules(idx):
@@ -923,6 +956,15 @@ def _alloc_check(r, f, c, key, chain):
         r.require(found is not None, key, f, node=c,
                   msg=f"`{chain}` is indexed with file-derived loop bounds but is only ever bound in __init__ (before the header is read): "
                       "reading a file cannot size it")
+        # what is read with an integer primitive is a 32-bit integer: the allocated array must be able to hold it
+        meth = call_attr(c)
+        is_int = meth in ("rwInt", "rwIntMatrix") or (meth == "rwList" and len(c.args) > 1 and isinstance(c.args[1], ast.Constant) and c.args[1].value == "int")
+        if found is not None and is_int and isinstance(found[1].value, ast.Call):
+            dt = next((k.value for k in found[1].value.keywords if k.arg == "dtype"), None)
+            small = dt is not None and norm(dt).split(".")[-1].strip("'\"") in ("int8", "int16", "uint8", "uint16", "i1", "i2", "u1", "u2", "bool", "bool_")
+            r.require(not small, key + ":holds-int32", found[0], node=found[1].stmt,
+                      msg=f"`{chain}` is allocated with dtype `{norm(dt) if dt is not None else ''}` but filled from 4-byte integer fields: a value the file format allows (e.g. 40000) "
+                          "cannot be read back (OverflowError) although armi writes it")
 
 
 # ------------------------------------------------------------------------------------------------
